@@ -17,7 +17,10 @@ type SyncCommitteeMessages map[common.ValidatorIndex]*altair.SyncCommitteeMessag
 func (msgs SyncCommitteeMessages) Select(root common.Root, members []common.ValidatorIndex) []*altair.SyncCommitteeMessage {
 	out := make([]*altair.SyncCommitteeMessage, 0, len(members))
 	for _, vi := range members {
-		msg := msgs[vi]
+		msg, ok := msgs[vi]
+		if !ok { // this member has not sent a message (yet)
+			continue
+		}
 		if msg.BeaconBlockRoot == root {
 			out = append(out, msg)
 		}
